@@ -337,7 +337,8 @@ def ob_gff(tier):
 
 
 # =========================================================================== GenBankFile edits
-FIELDS = [("LOCUS", ["l1"], None), ("DEFINITION", ["d1", "d2"], None),
+# (field names are case-insensitive on input: the file holds and reports them in upper case)
+FIELDS = [("LOCUS", ["l1"], None), ("definition", ["d1", "d2"], None),
           ("SOURCE", ["s1"], {"ORGANISM": ["o1", "o2"]}),
           ("FEATURES", ["     gene            1..2", '                     /gene="x"'], None),
           ("ORIGIN", ["        1 acgt"], None), ("COMMENT", ["c1", "c2", "c3"], None)]
@@ -346,7 +347,7 @@ FIELDS = [("LOCUS", ["l1"], None), ("DEFINITION", ["d1", "d2"], None),
 def _gb_expected(field):
     from collections import OrderedDict
     name, content, sub = field
-    return (name, list(content), OrderedDict((k, list(v)) for k, v in (sub or {}).items()))
+    return (name.upper(), list(content), OrderedDict((k, list(v)) for k, v in (sub or {}).items()))
 
 
 def gbfile_seq(ops):
@@ -391,8 +392,9 @@ def gbfile_seq(ops):
                     del model[idx]
             else:                # set_field by name (replace the unique field of that name or append)
                 valid = True
-                names = [m[0] for m in model]
-                if names.count(fld[0]) > 1:
+                names = [m[0].upper() for m in model]
+                fld_name = fld[0].upper()
+                if names.count(fld_name) > 1:
                     # documented: refuses to choose among several fields of one name
                     from biotite.file import InvalidFileError
                     try:
@@ -401,10 +403,12 @@ def gbfile_seq(ops):
                     except InvalidFileError:
                         continue
                 f.set_field(*fld)
-                if fld[0] in names:
-                    model[names.index(fld[0])] = fld
+                if fld_name in names:
+                    model[names.index(fld_name)] = fld
                 else:
                     model.append(fld)
+                if [x[0] for x in f.get_fields(fld_name)] != [list(m_[1]) for m_ in model if m_[0].upper() == fld_name]:
+                    return False
             raised = False
         except IndexError:
             raised = True
